@@ -11,6 +11,7 @@ type CaseC05 struct {
 	A, B    []ref.Box
 	Spatial bool  // single-zoom (radix tree) API: H == V >= 1 and -2^(z-1) <= f < 2^(z-1)
 	Spell   int64 `json:",omitempty"`
+	Each    bool  `json:",omitempty"` // sweep: EVERY entry of the (long) first list is looked up again, not a sample
 }
 
 // spatialValid: the documented domain of the single-zoom overlap check (altitude within +-2^24 m).
@@ -336,7 +337,7 @@ func checkC05(c *CaseC05, fl *Fails) {
 		var cand []int
 		for i := len(c.A) - 1; i >= 1; i-- {
 			d := (c.A[i].X ^ c.A[0].X) | (c.A[i].Y ^ c.A[0].Y) | (c.A[i].F ^ c.A[0].F)
-			if (d >= 1<<20 && len(cand) < 24) || i%16 == 0 {
+			if (d >= 1<<20 && len(cand) < 24) || i%16 == 0 || c.Each {
 				cand = append(cand, i)
 			}
 		}
@@ -347,6 +348,9 @@ func checkC05(c *CaseC05, fl *Fails) {
 			if err != nil || !r {
 				fl.Add("entry-lost-"+tag, "%s: entry %d (%s) of the first list does not overlap the list itself (%v, %v)", desc(), i, a.Ext(), r, err)
 				break
+			}
+			if c.Each && i%64 != 0 {
+				continue
 			}
 			r, err = c05Call(c.Spatial, []ref.Box{a}, c.A)
 			if err != nil || !r {
@@ -367,6 +371,19 @@ func checkC05(c *CaseC05, fl *Fails) {
 }
 
 func sweepC05(tier string, emit func(*CaseC05)) {
+	// long first lists of pairwise different, non-nested voxels; every entry must be found again (an index structure
+	// that loses the entry it was inserting when it grew)
+	each := []int{1100, 2100}
+	if tier != "quick" {
+		each = []int{600, 1100, 2100, 4200, 8300}
+	}
+	for _, n := range each {
+		bs := rowBoxes(n, 9, 9)
+		emit(&CaseC05{A: bs, B: []ref.Box{bs[n/2]}, Spatial: true, Each: true})
+		if n <= 2100 {
+			emit(&CaseC05{A: bs, B: []ref.Box{bs[n/3]}, Each: true})
+		}
+	}
 	for i, n := range roundSizes {
 		if (tier == "quick" && i%3 != 1) || n > 1025 {
 			continue
